@@ -180,7 +180,7 @@ def run(chk):
         except ValueError:
             pass
         chk.count()
-    wd = VERIF / "out" / "work" / "C13_trace_in"
+    wd = tlc.WORK / "C13_trace_in"
     wd.mkdir(parents=True, exist_ok=True)
     tf = wd / "events.json"
     tf.write_text(json.dumps([{k: v for k, v in e.items() if not k.startswith("_")} for e in evs]))
